@@ -28,6 +28,10 @@ class Unit:
     def expected(self, recipe) -> tuple:
         raise NotImplementedError
 
+    def alt_builders(self) -> list:
+        """[(name, fn(recipe) -> object)]: the unit's alternate public constructors (the same values, another entry point)"""
+        return []
+
     def observe_decoded(self, obj) -> tuple:
         """observe() plus what only a DECODED object carries (e.g. the received CRC it stores and re-emits with
         pack(recalc_crc=False)); used where two decodes are compared with each other (C09)"""
